@@ -18,6 +18,13 @@ def T(quick, thorough, floor=200, **kw):
 
 
 PROPS = {
+    "C19": T(1500, 40000, sites=["unionfind_halving_step"],
+             t={"legs": ["debug", "release", "asan", "miri"], "asan_cases_per_shard": 4000, "miri_cases_per_shard": 6},
+             rule="operation histories (30-400 calls; new/new_empty/with_capacity + new_set growth, union/try_union, find/find_mut/"
+                  "try_find*, equiv/try_equiv, into_labeling on a clone, clone, capacity ops, 20% out-of-range arguments len/len+1/max) "
+                  "over u8 (incl. all 256 elements)/u16/u32/usize against a label-vector model; sweeps of all pairs; raw parent/rank "
+                  "arrays via the verif-hooks exporter; non-trivial = >=4 elements and >=2 merging unions; distinct = hash of "
+                  "(index type, final partition, history length)"),
     "C20": T(2500, 60000,
              rule="per case six generated inputs, each algorithm on its documented domain: undirected simple loop-free graph (n<=8, "
                   "12%: n<=11) for maximal_cliques + dsatur (plus trees/bipartite up to 16 nodes for the k<=2 clause) on one of 8 "
